@@ -546,6 +546,16 @@ func init() {
 			dl, ok := c12Decls(c, t.file)
 			c12EmitList(&sb, t.def, dl, ok)
 		}
+		// the small functions around the mirrored ones, statement by statement
+		for _, t := range []struct{ def, file, fn string }{
+			{"newIntPoolSkeleton", poolFile, "NewIntPool"}, {"nameTableSkeleton", file, "Dissect.SubexpNameTable"},
+			{"compileFnSkeleton", file, "Compile"}, {"mustCompileSkeleton", file, "MustCompile"},
+			{"toFactorySkeleton", "pkg/matchers/factory.go", "ToFactory"},
+			{"factoryCreateSkeleton", "pkg/matchers/factory.go", "factoryWrapper.CreateInstance"}} {
+			c.Fingerprint(t.file, t.fn)
+			sk, ok := c12Skeleton(c, c.Func(t.file, t.fn))
+			c12EmitList(&sb, t.def, sk, ok)
+		}
 		c12EmitStdlib(&sb)
 		if lb, ok := c12LowerByte(c.Func(caseFile, "lowerByte")); ok {
 			sb.WriteString(lb)
